@@ -2,12 +2,12 @@
 // License, v. 2.0. If a copy of the MPL was not distributed with this
 // file, You can obtain one at https://mozilla.org/MPL/2.0/.
 
-use crate::types::{Dimensionality, Number, Numeric};
+use crate::types::{Dimensionality, Number};
 use std::cmp;
 use std::collections::{BTreeMap, BinaryHeap};
 use std::rc::Rc;
 
-#[derive(PartialEq, Ord, Eq, Debug)]
+#[derive(PartialEq, Ord, Eq, Debug, Clone)]
 pub struct Factors(pub usize, pub Vec<Rc<String>>);
 
 impl cmp::PartialOrd for Factors {
@@ -20,26 +20,58 @@ pub fn factorize(
     value: &Number,
     quantities: &BTreeMap<Dimensionality, Rc<String>>,
 ) -> BinaryHeap<Factors> {
-    if value.dimless() {
+    // The search visits a number of dimensionalities that grows very
+    // quickly with the complexity, one level of recursion per step.
+    if complexity_score(&value.unit) > MAX_COMPLEXITY {
+        return BinaryHeap::new();
+    }
+    factorize_memo(&value.unit, quantities, &mut BTreeMap::new())
+}
+
+/// Dimensionalities with a complexity score above this are not
+/// factorized (for comparison: energy^3 scores 18).
+pub const MAX_COMPLEXITY: i64 = 20;
+
+fn complexity_score(unit: &Dimensionality) -> i64 {
+    unit.iter().map(|(_, p)| 1 + p.abs()).sum()
+}
+
+// The result only depends on the dimensionality, and the same
+// dimensionalities are reached along a great many different paths:
+// without remembering them the search takes exponential time.
+fn factorize_memo(
+    value: &Dimensionality,
+    quantities: &BTreeMap<Dimensionality, Rc<String>>,
+    memo: &mut BTreeMap<Dimensionality, BinaryHeap<Factors>>,
+) -> BinaryHeap<Factors> {
+    if let Some(known) = memo.get(value) {
+        return known.clone();
+    }
+    let res = factorize_step(value, quantities, memo);
+    memo.insert(value.clone(), res.clone());
+    res
+}
+
+fn factorize_step(
+    value: &Dimensionality,
+    quantities: &BTreeMap<Dimensionality, Rc<String>>,
+    memo: &mut BTreeMap<Dimensionality, BinaryHeap<Factors>>,
+) -> BinaryHeap<Factors> {
+    if value.is_dimensionless() {
         let mut map = BinaryHeap::new();
         map.push(Factors(0, vec![]));
         return map;
     }
     let mut candidates: BinaryHeap<Factors> = BinaryHeap::new();
-    let value_score = value.complexity_score();
+    let value_score = complexity_score(value);
     for (unit, name) in quantities.iter().rev() {
-        let num = Number {
-            value: Numeric::one(),
-            unit: unit.clone(),
-        };
-        let res = (value / &num).unwrap();
-        //if res.unit.len() >= value.unit.len() {
-        let score = res.complexity_score();
+        let res = value / unit;
+        let score = complexity_score(&res);
         // we are not making the unit any simpler
         if score >= value_score {
             continue;
         }
-        let res = factorize(&res, quantities);
+        let res = factorize_memo(&res, quantities, memo);
         for Factors(score, mut vec) in res {
             vec.push(name.clone());
             vec.sort();
